@@ -194,6 +194,9 @@ class LoopMixin:
                 flags = set(sa.flags) & {"nonneg", "pos", "comp_p"}
             return Num(Rat.sym(path, flags))
         if isinstance(proto, TupV):
+            if len(proto.items) == 2:
+                from .symeval import PAIR_PATHS
+                PAIR_PATHS.add(path)
             return TupV([self.inductive_like(x, "%s[%d]" % (path, i)) for i, x in enumerate(proto.items)])
         if isinstance(proto, ObjV):
             o = ObjV(proto.cls, path=path)
